@@ -7,7 +7,7 @@ TECHNIQUE = "CBMC 2-safety harness: the same symbolic buffer scanned by the real
 ASSUMPTIONS = ["program dimension: a fixed family of (rule, companions) pairs chosen to force shared atoms, prefixes, suffixes, infixes, failure links to non-root states and appended match lists",
                "companion strings are given the same modifier flags as r's string (each in its own rule): a symbolic string pointer with differing flags makes the query intractable (probe in DESIGN section 4)",
                "the Aho-Corasick builder itself is not decidable symbolically here (P19: 65 GB); it is validated through its outputs on these pairs",
-               "leaf harnesses: _yr_ac_transitions_subset, transition encoding, transition-table growth for any slot (bitmask packing replaced by its contract), yr_parser_emit_pushes_for_rules (3 rules, 2 namespaces), _yr_ac_optimize_failure_links (6 states, arbitrary bytes and depth-decreasing failure links)", "buffers <= 4 bytes (quick, 3 pairs) / 5 bytes (thorough, 6 pairs): one pair at 5 bytes costs ~700 s / 10 GB; verdict composition (exec.c) is C04/C11"]
+               "leaf harnesses: _yr_ac_transitions_subset, transition encoding, transition-table growth for any slot (bitmask packing replaced by its contract), yr_parser_emit_pushes_for_rules (3 rules, 2 namespaces), _yr_ac_optimize_failure_links (6 states, arbitrary bytes and depth-decreasing failure links)", "buffers <= 4 bytes (quick, 2 pairs) / 5 bytes (thorough, 6 pairs): one pair at 5 bytes costs ~700 s / 10 GB; verdict composition (exec.c) is C04/C11"]
 LEVEL_TEXT = "Bounded model checking of match-list equality (2-safety) over all buffers in the bound for each template pair."
 LEVEL_NOTE = "; ".join(ASSUMPTIONS)
 
@@ -51,7 +51,7 @@ def pair_h(name, rstr, before, after, N):
 
 def harnesses(ctx, tier):
     N = 4   # one 2-string pair at 5 bytes costs ~700 s / 10 GB; 3-string sets do not finish in 900 s at 4 bytes
-    pairs = [p for p in PAIRS if p[0] in ("prefix", "suffix", "same_atom", "needed_failure_link")] if tier == "thorough" else [p for p in PAIRS if p[0] in ("prefix", "suffix", "needed_failure_link")]
+    pairs = [p for p in PAIRS if p[0] in ("prefix", "suffix", "same_atom", "needed_failure_link")] if tier == "thorough" else [p for p in PAIRS if p[0] in ("prefix", "needed_failure_link")]   # quick: 2 pairs (each ~400 s / 7 GB alone; `vp check` stops a check at 900 s); suffix: thorough
     hs = [pair_h(*p, N=N) for p in pairs]
     hs.append(Harness(name="H3_transitions_subset", src="c05/ac_leaf.c", defines=["-DVF_MODE=1"], unwind=5, timeout=300,
                       desc="_yr_ac_transitions_subset on two arbitrary child lists (<= 3 children, any bytes)", bounds="<= 3 children per state, all input bytes",
